@@ -120,6 +120,15 @@ def handler(case):
     mc.step = step
     is_mc = case["driver"] == "canonical"
     retune = case.get("retune")
+    if case["entry"] == "irun_chain":
+        # all run generators are created first and consumed afterwards (itertools.chain(sim.irun(a), sim.irun(b))): a generator does nothing until iterated
+        gens = [mc.irun(seg) for seg in case["segments"]]
+        for g in gens:
+            for st in g:
+                if is_mc:
+                    for _ in st:
+                        pass
+        case = dict(case, segments=[])
     for si, seg in enumerate(case["segments"]):
         if retune and si == retune["seg"]:
             recs[retune["obs"]].interval = retune["interval"]      # the user re-tunes an attached observer between two run calls
